@@ -1,6 +1,7 @@
 """Miscellaneous utilities."""
 
 import functools
+import threading
 import types
 
 
@@ -102,6 +103,12 @@ def _build_refstring(module, *path):
         module = ""
 
     return f"/{module}/" + "/".join(path)
+
+
+# Functions are shared by all threads: installing and removing their
+# instrumentation, and resolving references to them, is done by one thread
+# at a time.
+tooling_lock = threading.RLock()
 
 
 class CodeNotFoundError(Exception):
